@@ -32,9 +32,12 @@ Local Open Scope N_scope.
 (** * Data *)
 
 Record validator := { v_addr : N; v_power : Z; v_prio : Z }.
-(** ValidatorSet: the validators (sorted by the code; order is data here) and the Proposer,
-    which ToProto serialises as a separate Validator message (address, power, priority). *)
-Record valset := { vs_vals : list validator; vs_prop : validator }.
+(** ValidatorSet: the validators (sorted by the code; order is data here), the Proposer,
+    which ToProto serialises as a separate Validator message (address, power, priority), and
+    the cached total voting power (the private field totalVotingPower: ToProto writes it as it
+    is, 0 = "not computed yet", ValidatorSetFromProto restores it without looking at it; what
+    TotalVotingPower() makes of it is C12's model). *)
+Record valset := { vs_vals : list validator; vs_prop : validator; vs_total : Z }.
 
 Record blockid := { b_hash : N; b_total : N; b_phash : N }.
 Definition bid_zero : blockid := {| b_hash := 0; b_total := 0; b_phash := 0 |}.
@@ -303,6 +306,8 @@ Definition update_state (s : cstate) (b : block) (changed : bool) (nvs : valset)
 (** * Operation histories (what the harness drives on the real store) *)
 
 Inductive op :=
+| ONode (s : cstate)                 (* the node's in-memory state becomes [s] (hand-built states:
+                                        records of older versions, states Save must refuse) *)
 | OBoot (g : cstate)                 (* LoadStateFromDBOrGenesisDoc; g = MakeGenesisState(doc) *)
 | OBlock (b : block)
 | OUpdate (b : block) (changed : bool) (nvs : valset)
@@ -313,6 +318,7 @@ Inductive op :=
 | OPrune (from to : N).
 
 Inductive obs :=
+| ObNode
 | ObBoot (r : lres)
 | ObOk
 | ObState (s : option cstate)
@@ -327,6 +333,7 @@ Definition init : machine := {| m_db := empty_db; m_cur := None |}.
 
 Definition step (m : machine) (o : op) : machine * obs :=
   match o with
+  | ONode s => ({| m_db := m_db m; m_cur := Some s |}, ObNode)
   | OBoot g =>
     match load (m_db m) with
     | LPanic c => (m, ObBoot (LPanic c))
